@@ -147,10 +147,67 @@ fn is_exact_tie(lit: &str, a: f64, b: f64) -> bool {
     }
 }
 
+/// Does `lit` agree with the exact midpoint of the two adjacent floats `a` < `b` (given as f64) in magnitude and in its
+/// first 17 significant digits, i.e. does it lie at or within about 1e-17 (relative) of the rounding boundary?
+fn near_boundary(lit: &str, a: f64, b: f64) -> bool {
+    if !a.is_finite() || !b.is_finite() || a == b {
+        return false;
+    }
+    // exact decimal expansion of (a + b) / 2 by digit arithmetic (the midpoint of two adjacent f64 is not an f64)
+    let mut dummy = Rng::new(0);
+    let split = |x: f64, r: &mut Rng| -> (Vec<u8>, usize) {
+        let t = exact_decimal_f64(x.abs(), r);
+        let (d, e) = t.split_once("e-").unwrap();
+        (d.bytes().map(|c| c - b'0').collect(), e.parse::<usize>().unwrap())
+    };
+    let (mut da, sa) = split(a, &mut dummy);
+    let (mut db, sb) = split(b, &mut dummy);
+    let sh = sa.max(sb);
+    da.extend(std::iter::repeat(0).take(sh - sa));
+    db.extend(std::iter::repeat(0).take(sh - sb));
+    let n = da.len().max(db.len());
+    while da.len() < n {
+        da.insert(0, 0);
+    }
+    while db.len() < n {
+        db.insert(0, 0);
+    }
+    // sum, then times 5 (and one more decimal place) = divided by two
+    let mut sum = vec![0u8; n + 1];
+    let mut carry = 0u8;
+    for i in (0..n).rev() {
+        let v = da[i] + db[i] + carry;
+        sum[i + 1] = v % 10;
+        carry = v / 10;
+    }
+    sum[0] = carry;
+    let mut carry = 0u8;
+    for d in sum.iter_mut().rev() {
+        let v = *d * 5 + carry;
+        *d = v % 10;
+        carry = v / 10;
+    }
+    if carry > 0 {
+        sum.insert(0, carry);
+    }
+    let exp = format!("{}{}e-{}", if a < 0.0 { "-" } else { "" }, sum.iter().map(|d| (b'0' + d) as char).collect::<String>(), sh + 1);
+    match (parse_nrf(lit.as_bytes()), parse_nrf(exp.as_bytes())) {
+        (Some(x), Some(m)) => {
+            if x == m {
+                return true;
+            }
+            let (lx, lm) = (x.digits.len() as i64 + x.exp10, m.digits.len() as i64 + m.exp10);
+            lx == lm && x.digits.len() >= 17 && m.digits.len() >= 17 && x.digits[..17] == m.digits[..17]
+        }
+        _ => false,
+    }
+}
+
 /// how a result that is not the correctly rounded one relates to it (part of the signature: specific findings stay specific)
 fn misround_kind(lit: &str, got: f64, want: f64, got_bits: u64, want_bits: u64) -> &'static str {
-    if got.is_finite() && want.is_finite() && (got_bits as i128 - want_bits as i128).abs() == 1 && is_exact_tie(lit, got, want) {
-        if got_bits & 1 == 1 { "exact-halfway-literal-rounded-to-odd" } else { "exact-halfway-literal" }
+    let sig_digits = parse_nrf(lit.as_bytes()).map_or(0, |d| d.digits.len());
+    if got.is_finite() && want.is_finite() && (got_bits as i128 - want_bits as i128).abs() == 1 && sig_digits >= 20 && near_boundary(lit, got, want) {
+        "long-literal-at-or-near-a-rounding-boundary-off-by-one-ulp"
     } else {
         "not-a-tie"
     }
@@ -179,13 +236,13 @@ fn check_float(ctx: &mut Ctx, lit: &str) {
     }
     match f64::try_from(t) {
         Ok(g) if g.to_bits() == w64.to_bits() => {}
-        Ok(g) if misround_kind(lit, g, w64, g.to_bits(), w64.to_bits()) != "not-a-tie" => ctx.violation(&format!("C08:f64-{}:{}{}", misround_kind(lit, g, w64, g.to_bits(), w64.to_bits()), class(w64), if cfg!(feature = "compact") { ":compact-feature" } else { "" }), jobj(&[("literal", jstr(lit)), ("library_bits", jstr(&format!("{:#018x}", g.to_bits()))), ("reference_bits", jstr(&format!("{:#018x}", w64.to_bits())))])),
+        Ok(g) if misround_kind(lit, g, w64, g.to_bits(), w64.to_bits()) != "not-a-tie" => ctx.violation(&format!("C08:f64-{}{}", misround_kind(lit, g, w64, g.to_bits(), w64.to_bits()), if cfg!(feature = "compact") { ":compact-feature" } else { "" }), jobj(&[("literal", jstr(lit)), ("library_bits", jstr(&format!("{:#018x}", g.to_bits()))), ("reference_bits", jstr(&format!("{:#018x}", w64.to_bits())))])),
         Ok(g) => ctx.violation(&format!("C08:f64-not-correctly-rounded:{}", class(w64)), jobj(&[("literal", jstr(lit)), ("library_bits", jstr(&format!("{:#018x} ({:e})", g.to_bits(), g))), ("reference_bits", jstr(&format!("{:#018x} ({:e})", w64.to_bits(), w64)))])),
         Err(e) => ctx.violation(&format!("C08:f64-literal-rejected:{}:{}", e.get_code(), class(w64)), jobj(&[("literal", jstr(lit))])),
     }
     match f32::try_from(t) {
         Ok(g) if g.to_bits() == w32.to_bits() => {}
-        Ok(g) if misround_kind(lit, g as f64, w32 as f64, g.to_bits() as u64, w32.to_bits() as u64) != "not-a-tie" => ctx.violation(&format!("C08:f32-{}:{}{}", misround_kind(lit, g as f64, w32 as f64, g.to_bits() as u64, w32.to_bits() as u64), class32, if cfg!(feature = "compact") { ":compact-feature" } else { "" }), jobj(&[("literal", jstr(lit)), ("library_bits", jstr(&format!("{:#010x}", g.to_bits()))), ("reference_bits", jstr(&format!("{:#010x}", w32.to_bits())))])),
+        Ok(g) if misround_kind(lit, g as f64, w32 as f64, g.to_bits() as u64, w32.to_bits() as u64) != "not-a-tie" => ctx.violation(&format!("C08:f32-{}{}", misround_kind(lit, g as f64, w32 as f64, g.to_bits() as u64, w32.to_bits() as u64), if cfg!(feature = "compact") { ":compact-feature" } else { "" }), jobj(&[("literal", jstr(lit)), ("library_bits", jstr(&format!("{:#010x}", g.to_bits()))), ("reference_bits", jstr(&format!("{:#010x}", w32.to_bits())))])),
         Ok(g) => ctx.violation(&format!("C08:f32-not-correctly-rounded:{}", class32), jobj(&[("literal", jstr(lit)), ("library_bits", jstr(&format!("{:#010x} ({:e})", g.to_bits(), g))), ("reference_bits", jstr(&format!("{:#010x} ({:e})", w32.to_bits(), w32)))])),
         Err(e) => ctx.violation(&format!("C08:f32-literal-rejected:{}:{}", e.get_code(), class32), jobj(&[("literal", jstr(lit))])),
     }
